@@ -274,7 +274,7 @@ def path_api(ctx, flavours):
             O(q, 'present', False, 'anchor missing')
         else:
             pv = F.prov(b)
-            gets = [(bi, t) for bi, t in calls_in(b) if callee_name(t).endswith(']::get')]
+            gets = [(bi, t) for bi, t in calls_in(b) if callee_name(t).endswith(']::get') or callee_name(t).endswith(']::first')]
             why = []
 
             def alts(t):
@@ -295,6 +295,9 @@ def path_api(ctx, flavours):
             for bi, t in gets:
                 if deep_unwrap(pv.of_operand(t['args'][0])) != EDGES:
                     why.append('reads another list than the path edges')
+                if callee_name(t).endswith(']::first'):
+                    idx_kinds.add('0')
+                    continue
                 for a_ in alts(pv.of_operand(t['args'][1])):
                     # a (index, flag) pair selected by `position == 0` shows up as field 0 of a tuple alternative
                     if isinstance(a_, tuple) and a_[0] == 'f' and isinstance(a_[1], tuple) and a_[1][0] in ('join', 'aggr'):
@@ -353,7 +356,7 @@ def path_api(ctx, flavours):
                     zero_e, nonzero_e = (sb_, z_[0]), (sb_, tt_['otherwise'])
                 if zero_e is not None:
                     for gbi, gt in gets:
-                        for a_ in alts(pv.of_operand(gt['args'][1])):
+                        for a_ in (alts(pv.of_operand(gt['args'][1])) if len(gt['args']) > 1 else []):
                             if is_pos_minus_1(a_) and not cfg.edge_dominates(nonzero_e[0], nonzero_e[1], gbi):
                                 why.append('edges[position - 1] is read without position != 0 being established (underflow on the first call)')
                     for bb_i, bb in enumerate(b['blocks']):
@@ -376,22 +379,23 @@ def path_api(ctx, flavours):
                                         why.append('the %s of the read edge is taken on the position %s 0 branch' % ('source' if fld == '0' else 'target', '!=' if fld == '0' else '=='))
             why += _pos_increments(F, b, None)
             O(q, 'node iterator yields the root, then the target of each edge', not why, '; '.join(why) if why else 'ok')
-        # last_node / last_edge / to_vec_*
-        for name, exp_proj in (('last_node', '1'), ('first_edge', None), ('last_edge', None)):
+        # last_node / last_edge / first_edge: which element of the edge list (and which field of it) the accessor hands out,
+        # whatever the spelling (first() / get(0); last() / guarded get(len - 1); map / `?` / match; through a sibling accessor)
+        for name, want in (('last_node', ('field', 'last', '1')), ('first_edge', ('edge', '0')), ('last_edge', ('edge', 'last'))):
             q = pp + 'Path::' + name
             b = F.bodies.get(q)
             if b is None:
                 continue
             t = deep_unwrap(F.prov(b).of_local(0))
-            want = 'last' if name.startswith('last') else 'first'
-            cs = term_calls(t)
-            ok = any(c[1].endswith(']::' + want) and deep_unwrap(c[2][0]) == ('f', P1_, '0') for c in cs)
+            got = _canon_elem(F, t, pp)
+            ok = want in got and got <= {want, 'none'}
             why = 'returns ' + pretty(t)
-            if ok and exp_proj:
-                clos = [z for c in cs for z in c[2] if isinstance(z, tuple) and z and z[0] == 'aggr' and z[1].startswith('closure:')]
-                cb = F.bodies.get(clos[0][1][len('closure:'):]) if len(clos) == 1 else None
-                ok = cb is not None and deep_unwrap(F.prov(cb).of_local(0)) == ('f', P2_, exp_proj)
-            O(q, '%s = %s(edges)%s' % (name, want, ' target' if exp_proj else ''), ok, why)
+            if ok and any(isinstance(c, tuple) and c[1].endswith(']::get') for c in term_calls(t)) and want[1 if want[0] == 'edge' else 1] == 'last':
+                # get(len - 1): the subtraction needs a guard against the empty list
+                if not any(bb['term']['k'] == 'switch' for bb in b['blocks'] if not bb['cleanup']):
+                    ok = False
+                    why = 'edges.get(len - 1) without an emptiness test (underflow on an empty path)'
+            O(q, '%s = %s of the %s edge' % (name, 'the target' if want[0] == 'field' else 'a reference', 'last' if 'last' in want else 'first'), ok, why if not ok else 'ok: ' + pretty(t)[:80])
         q = pp + 'Path::len'
         b = F.bodies.get(q)
         if b is not None:
@@ -405,7 +409,12 @@ def path_api(ctx, flavours):
         if b is not None:
             t = deep_unwrap(F.prov(b).of_local(0))
             ok = isinstance(t, tuple) and t[0] == 'call' and t[1].endswith('Iterator::collect') and isinstance(t[2][0], tuple) and t[2][0][0] == 'call' and t[2][0][1] == pp + 'Path::iter_nodes' and deep_unwrap(t[2][0][2][0]) == P1_
-            O(q, 'to_vec_nodes = iter_nodes().collect()', ok, 'returns ' + pretty(t))
+            why = 'returns ' + pretty(t)
+            if not ok:
+                lw = _collect_loop_form(F, b, lambda it: isinstance(it, tuple) and it and it[0] == 'call' and it[1] == pp + 'Path::iter_nodes' and deep_unwrap(it[2][0]) == P1_)
+                ok = not lw
+                why = 'neither iter_nodes().collect() nor a loop pushing every item: ' + '; '.join(lw)
+            O(q, 'to_vec_nodes = iter_nodes().collect()', ok, why)
         for name, it in (('iter_nodes', 'PathNodeIterator'), ('iter_edges', 'PathEdgeIterator')):
             q = pp + 'Path::' + name
             b = F.bodies.get(q)
@@ -417,6 +426,135 @@ def path_api(ctx, flavours):
 
 
 P2_ = ('param', 2)
+
+
+def _idx_of(call, EDGES, POS=None):
+    """canonical index of a read of the edge list: '0', 'last', 'pos', 'pos-1'; None when the call is not such a read"""
+    if not (isinstance(call, tuple) and call and call[0] == 'call' and call[2]):
+        return None
+    nm = call[1]
+    if deep_unwrap(call[2][0]) != EDGES:
+        return None
+    if nm.endswith(']::first'):
+        return '0'
+    if nm.endswith(']::last'):
+        return 'last'
+    if (nm.endswith(']::get') or nm.endswith('::index')) and len(call[2]) == 2:
+        i = deep_unwrap(call[2][1])
+        if i == ('const', '0_usize'):
+            return '0'
+        if POS is not None and i == POS:
+            return 'pos'
+        base = i[1] if (isinstance(i, tuple) and i and i[0] == 'f' and isinstance(i[1], tuple) and i[1] and i[1][0] == 'binop') else i
+        if isinstance(base, tuple) and base and base[0] == 'binop' and base[1].startswith('Sub') and base[2][1] == ('const', '1_usize'):
+            a = deep_unwrap(base[2][0])
+            if isinstance(a, tuple) and a and a[0] == 'call' and a[1].endswith('::len') and deep_unwrap(a[2][0]) == EDGES:
+                return 'last'
+            if POS is not None and a == POS:
+                return 'pos-1'
+        if isinstance(i, tuple) and i and i[0] == 'call' and i[1].endswith('::saturating_sub') and POS is not None and deep_unwrap(i[2][0]) == POS and i[2][1] == ('const', '1_usize'):
+            return 'pos-1|0'
+    return None
+
+
+def _canon_elem(F, t, pp, depth=0, EDGES=('f', ('param', 1), '0')):
+    """what an Option<&Edge>/Option<&Node> valued term denotes over the edge list of self: a set of ('edge', idx), ('field', idx, k),
+    'none', or ('?', text) alternatives"""
+    from .core import subst_full, closure_result
+    t = deep_unwrap(t)
+    if not isinstance(t, tuple) or not t or depth > 5:
+        return {('?', pretty(t))}
+    if t[0] == 'join':
+        out = set()
+        for x in t[1]:
+            out |= _canon_elem(F, x, pp, depth + 1, EDGES)
+        return out
+    if t[0] == 'aggr' and t[1].endswith('Option::Some') and t[2]:
+        return _canon_elem(F, t[2][0], pp, depth + 1, EDGES)
+    if t[0] == 'aggr' and t[1].endswith('Option::None'):
+        return {'none'}
+    if t[0] == 'call':
+        if t[1].endswith('from_residual'):
+            return {'none'}
+        ix = _idx_of(t, EDGES)
+        if ix is not None:
+            return {('edge', ix), 'none'}
+        if t[1].startswith(pp + 'Path::') and t[1] in F.bodies and F.bodies[t[1]]['kind'] != 'Closure' and t[2] and deep_unwrap(t[2][0]) == ('param', 1):
+            rt = F.prov(F.bodies[t[1]]).of_local(0)
+            return _canon_elem(F, rt, pp, depth + 1, EDGES)
+        if t[1].endswith('Option::map') and len(t[2]) == 2:
+            inner = _canon_elem(F, t[2][0], pp, depth + 1, EDGES)
+            cr = closure_result(F, t[2][1], [('param', 99)])
+            cr = deep_unwrap(cr) if cr is not None else None
+            out = set()
+            for a in inner:
+                if a == 'none':
+                    out.add(a)
+                elif isinstance(a, tuple) and a[0] == 'edge' and isinstance(cr, tuple) and cr[0] == 'f' and cr[1] == ('param', 99):
+                    out.add(('field', a[1], cr[2]))
+                elif isinstance(a, tuple) and a[0] == 'edge' and cr == ('param', 99):
+                    out.add(a)
+                else:
+                    out.add(('?', 'map of ' + pretty(cr)))
+            return out
+    if t[0] == 'f':
+        inner = _canon_elem(F, t[1], pp, depth + 1, EDGES)
+        out = set()
+        for a in inner:
+            if a == 'none':
+                out.add(a)
+            elif isinstance(a, tuple) and a[0] == 'edge':
+                out.add(('field', a[1], t[2]))
+            else:
+                out.add(('?', pretty(t)))
+        return out
+    return {('?', pretty(t))}
+
+
+def _collect_loop_form(F, b, is_source):
+    """`let mut v = Vec::new(); for x in SOURCE { v.push(x) } v` -- the objections to reading b that way (empty = it is that loop)"""
+    from .core import outcome_edges
+    pv, cfg = F.prov(b), F.cfg(b)
+    nexts = [(bi, t) for bi, t in calls_in(b) if callee_name(t).endswith('::next') and t['args']]
+    if len(nexts) != 1:
+        return ['%d iterator steps' % len(nexts)]
+    nbi, nt = nexts[0]
+    it = deep_unwrap(pv.of_operand(nt['args'][0]))
+    if isinstance(it, tuple) and it and it[0] == 'call' and it[1].endswith('into_iter') and it[2]:
+        it = deep_unwrap(it[2][0])
+    if not is_source(it):
+        return ['iterates %s' % pretty(it)]
+    se, ne = outcome_edges(F, b, nbi)
+    if se is None:
+        return ['the step is not branched on']
+    why = []
+    pushes = [(bi, t) for bi, t in calls_in(b) if callee_name(t).split('::')[-1].rstrip('>') in ('push', 'push_back', 'insert', 'extend', 'append', 'push_front')]
+    if len(pushes) != 1 or not callee_name(pushes[0][1]).endswith('Vec::push'):
+        return ['%d insertions into the result' % len(pushes)]
+    ubi, ut = pushes[0]
+    x = deep_unwrap(pv.of_operand(ut['args'][1]))
+    if not (isinstance(x, tuple) and x and x[0] == 'call' and x[1].endswith('::next') and len(x) > 3 and x[3] == nbi):
+        why.append('pushes %s, not the item' % pretty(x))
+    if not cfg.edge_dominates(se[0], se[1], ubi):
+        why.append('push outside the Some branch of the step')
+    # every pass through the Some branch pushes: no switch between the step and the push
+    for bi2 in cfg.reach:
+        bb = b['blocks'][bi2]
+        if not bb['cleanup'] and bb['term']['k'] == 'switch' and bi2 != nbi and cfg.edge_dominates(se[0], se[1], bi2) and not (bb['term'].get('op', {}).get('pl', {}).get('l') is None):
+            tt = pv.of_operand(bb['term']['op'])
+            if not (isinstance(tt, tuple) and tt and tt[0] == 'discr' and se[0] == bi2):
+                why.append('a test between the step and the push (items may be skipped)')
+                break
+    rv = deep_unwrap(pv.of_local(0))
+    vec = deep_unwrap(pv.of_operand(ut['args'][0]))
+    if not (isinstance(rv, tuple) and rv and rv[0] == 'call' and rv[1].split('::')[-1] in ('new', 'with_capacity') and rv == vec):
+        why.append('returns %s, not the vector it fills' % pretty(rv))
+    for bi2, bb in enumerate(b['blocks']):
+        if bb['cleanup'] or bi2 not in cfg.reach:
+            continue
+        if bb['term']['k'] == 'return' and not (ne and cfg.edge_dominates(ne[0], ne[1], bi2)):
+            why.append('returns before the source is exhausted')
+    return why
 
 
 def _pos_increments(F, b, expected):
@@ -440,10 +578,24 @@ def _pos_increments(F, b, expected):
         # behind the success edge of a get() (match / if let / `?`)
         from .core import outcome_edges
         ok = False
-        for gbi, gt in calls_in(b, lambda t: callee_name(t).endswith(']::get')):
+        succ_edges = set()
+        for gbi, gt in calls_in(b, lambda t: callee_name(t).endswith(']::get') or callee_name(t).endswith(']::first') or callee_name(t).endswith(']::last')):
             se, fe = outcome_edges(F, b, gbi)
-            if se and cfg.edge_dominates(se[0], se[1], bi):
-                ok = True
+            if se:
+                succ_edges.add((se[0], se[1]))
+                if cfg.edge_dominates(se[0], se[1], bi):
+                    ok = True
+        if not ok and succ_edges:
+            # several reads (one per branch): every path to the store must cross the success edge of one of them
+            seen, todo = {0}, [0]
+            while todo:
+                x = todo.pop()
+                for y in cfg.succ[x]:
+                    if (x, y) in succ_edges or y in seen or b['blocks'][y]['cleanup']:
+                        continue
+                    seen.add(y)
+                    todo.append(y)
+            ok = bi not in seen
         if not ok:
             why.append('position advances without a successful read')
     return why
